@@ -22,6 +22,7 @@ type unsupportedErr struct{ msg string }
 func unsupported(msg string) unsupportedErr { return unsupportedErr{msg} }
 
 type abortPath struct{ why string } // infeasible assume etc: path silently dropped
+type prunedPath struct{}             // state already explored (state hashing)
 type fuelErr struct{ msg string }
 type threadKill struct{}
 type exitPath struct{} // harness asked to end the path (e.g. after a violation)
@@ -45,6 +46,7 @@ type frame struct {
 	locals    []Value
 	defers    *deferred
 	result    Value
+	pc        int
 	panicking bool
 	panicVal  Value
 	callPos   token.Pos
@@ -331,7 +333,8 @@ func (st *State) runFrame(fr *frame) {
 	}()
 	for {
 		b := fr.block
-		for _, instr := range b.Instrs {
+		for i, instr := range b.Instrs {
+			fr.pc = i
 			st.fuel--
 			if st.fuel < 0 {
 				panic(fuelErr{"instruction budget exhausted at " + fr.where()})
@@ -361,7 +364,7 @@ type engineBug struct {
 
 func isEnginePanic(r interface{}) bool {
 	switch r.(type) {
-	case abortPath, fuelErr, threadKill, exitPath, engineBug, unsupportedErr:
+	case abortPath, fuelErr, threadKill, exitPath, engineBug, unsupportedErr, prunedPath:
 		return true
 	}
 	return false
